@@ -17,7 +17,22 @@ SIZES = (1, 2, 4, 8)
 # physical addresses are 40 bits wide (supersection / LPAE output addresses): devices below, across and above 4 GiB
 ANCHORS = [0, 0x10, 0x40, 0x1000, 0x7FFFFFE0, 0xFFFFFFC0, 0xFFFFFFF0, 1 << 32, (1 << 32) + 0x40, 0xFF_FFFF_FFC0, 0x12_0000_0000]
 PA_MASK = (1 << 40) - 1
-layout_st = st.lists(st.tuples(st.sampled_from(ANCHORS), st.integers(0, 0x24), st.integers(1, 70)), min_size=1, max_size=5)
+# 1-5 devices anywhere, or (one layout in four) a longer map of 6-12 devices laid out from one anchor - implementations that switch lookup strategy with
+# the number of controllers (sorted index, bisection) only show their corner cases on long maps
+layout_st = st.one_of(
+    st.lists(st.tuples(st.sampled_from(ANCHORS), st.integers(0, 0x24), st.integers(1, 70)), min_size=1, max_size=5),
+    st.lists(st.tuples(st.sampled_from(ANCHORS), st.integers(0, 0x24), st.integers(1, 70)), min_size=1, max_size=5),
+    st.lists(st.tuples(st.sampled_from(ANCHORS), st.integers(0, 0x24), st.integers(1, 70)), min_size=1, max_size=5),
+    st.tuples(st.sampled_from(ANCHORS), st.integers(1, 0x40), st.lists(st.tuples(st.integers(1, 24), st.integers(0, 9)), min_size=6, max_size=12)).map(
+        lambda t: _chain(*t)))
+
+
+def _chain(anchor, first, parts):
+    out, off = [], first
+    for size, gap in parts:
+        out.append((anchor, off, size))
+        off += size + gap
+    return out
 
 
 class Violation(Exception):
@@ -240,6 +255,8 @@ def shard_sweep(idx):
         [(0xFFFFFFF0, 0, 16)], [(0xFFFFFFF0, 3, 13)], [(0x1000, 0, 64), (0x1000, 70, 5), (0x1000, 0, 8)],
         [(0x7FFFFFE0, 1, 2), (0x7FFFFFE0, 3, 2), (0x7FFFFFE0, 5, 33)],
         [(0xFFFFFFF0, 0, 32)], [(1 << 32, 0, 16), (0x12_0000_0000, 3, 9)],            # straddling / above 4 GiB
+        [(0x1000, 0x20 * k, 0x18) for k in range(9)],                                      # nine disjoint devices, nothing mapped below the first
+        [(0x40, 0x10 * k, 0x10) for k in range(12)],                                       # twelve abutting devices
     ]
     lay = layouts[idx]
     model0 = Model(lay)
@@ -365,18 +382,18 @@ def shard_edge_steps(seed, count):
 
 
 def run(ctx):
-    ctx.rule = ('Hypothesis RuleBasedStateMachine: layout of 1-5 RAM devices (sizes 1..70 incl. odd, adjacent/gapped/overlapping, up to '
+    ctx.rule = ('Hypothesis RuleBasedStateMachine: layout of 1-5 (a quarter of the histories: 6-12) RAM devices (sizes 1..70 incl. odd, adjacent/gapped/overlapping, up to '
                 'the last bytes below 2^32, and above 4 GiB up to the top of the 40-bit physical space) then <=N reads/writes of size 1/2/4/8 at addresses drawn from device boundaries +-9, '
                 'unmapped gaps, >2^32 and random; oracle = per-device byte arrays + first-match rule, checked after every step '
                 '(device lengths, every byte, read values, no host exception). Plus a deterministic sweep of every address around '
-                'every boundary of 10 fixed layouts, and emulate_cycle() steps whose fetch / data access lies at the last bytes of a device; two hubs built by from_memory_list from the same list objects own separate, zero-filled devices. Non-trivial history: contains an access within 8 bytes of a device end or >=2 '
+                'every boundary of 12 fixed layouts (up to 12 devices), and emulate_cycle() steps whose fetch / data access lies at the last bytes of a device; two hubs built by from_memory_list from the same list objects own separate, zero-filled devices. Non-trivial history: contains an access within 8 bytes of a device end or >=2 '
                 'touching/overlapping devices; distinct = distinct (layout, op sequence).')
     ctx.technique = 'stateful model-based property testing (Hypothesis rule-based machine) against an in-memory byte model'
     ctx.assumptions = ['RAM devices only (the only MemoryType shipped)', 'values written are in range for their size (all callers mask)']
     ex = ctx.n(250, 6000)
     steps = ctx.n(40, 60)
     tasks = [(shard_machine, (ctx.shard_seed(i), ex, steps, not ctx.quick)) for i in range(16)]
-    tasks += [(shard_sweep, (i,)) for i in range(10)]
+    tasks += [(shard_sweep, (i,)) for i in range(12)]
     tasks += [(shard_from_list, (ctx.shard_seed(80), ctx.n(300, 5000)))]
     tasks += [(shard_edge_steps, (ctx.shard_seed(50 + i), ctx.n(400, 8000))) for i in range(4)]
     ctx.pmap(_dispatch, tasks)
